@@ -137,7 +137,8 @@ Definition do_stop (s : sys) : sys :=
 Definition life_op (st : sys * list nat) (o : lop) : (sys * list nat) * lobs :=
   let (s, clients) := st in
   match o with
-  | OStart => let s' := do_start s in ((s', clients), ObsRet (is_running s'))
+  | OStart =>      (* Start on a server that is not stopped returns an error and changes nothing: it keeps serving until Stop *)
+    if is_stopped s then let s' := do_start s in ((s', clients), ObsRet (is_running s')) else (st, ObsRet false)
   | OStop => let s' := do_stop s in ((s', []), ObsRet (is_stopped s'))
   | ORestart => let s1 := if is_running s then do_stop s else s in let s' := do_start s1 in ((s', []), ObsRet (is_running s'))
   | OPlain =>
@@ -175,6 +176,6 @@ Fixpoint life_run (st : sys * list nat) (ops : list lop) : list lobs :=
 
 Definition life_model (p t : bool) (ops : list lop) : list lobs := life_run (init p t, []) ops.
 
-Example life_model_ex : life_model true true [OStart; OPlain; OTLS; ODisc; ORestart; OPlain; OStop] =
-  [ObsRet true; ObsReg 1; ObsReg 2; ObsReg 1; ObsRet true; ObsReg 1; ObsRet true].
+Example life_model_ex : life_model true true [OStart; OPlain; OStart; OTLS; ODisc; ORestart; OPlain; OStop; OStop] =
+  [ObsRet true; ObsReg 1; ObsRet false; ObsReg 2; ObsReg 1; ObsRet true; ObsReg 1; ObsRet true; ObsRet true].
 Proof. vm_compute. reflexivity. Qed.
